@@ -15,7 +15,7 @@ pub struct AsyncConsIter<'buf, B: MutRB, const W: bool> {
     inner: ConsIter<'buf, B, W>,
     waker: Option<Waker>
 }
-unsafe impl<B: ConcurrentRB + MutRB<Item = T>, T, const W: bool> Send for AsyncConsIter<'_, B, W> {}
+unsafe impl<B: ConcurrentRB + MutRB<Item = T>, T: Send, const W: bool> Send for AsyncConsIter<'_, B, W> {}
 
 impl<'buf, B: MutRB<Item = T>, T, const W: bool> AsyncIterator for AsyncConsIter<'buf, B, W> {
     type I = ConsIter<'buf, B, W>;
